@@ -375,6 +375,71 @@ func (e *seqEnv) actForeignTx(t *rapid.T) {
 	e.note("foreign pool gets %s (%s) -> %v", txDesc(e.w, tx), kind, err)
 }
 
+// foreignOvertake: the other node mines, for one of this pool's senders, ANOTHER transaction for the nonce
+// this pool holds as executable (same key used elsewhere / re-signed tx) together with the very
+// transaction this pool holds as pending behind a nonce gap: pool here exec [S:n] pending [S:n+2],
+// block from the other node [S:n', S:n+1', S:n+2]. The block's tx then leaves this pool out of its pending
+// queue while the sender's executable queue is still populated.
+func (e *seqEnv) actForeignOvertake(t *rapid.T) {
+	e.t = t
+	if e.fr == nil {
+		e.actDense(t)
+		return
+	}
+	s := e.r.ReadState()
+	epoch := s.State.Epoch()
+	sender := e.rich[rapid.IntRange(0, len(e.rich)-1).Draw(t, "sender")]
+	to := e.w.Actors[(sender.Idx+1)%len(e.w.Actors)].Addr
+	base := effNonce(s, sender.Addr)
+	here := poolNonces(e.r, sender.Addr, epoch)
+	// make sure this pool has the executable nonce and something behind a gap
+	if len(here[base+1]) == 0 {
+		e.salt++
+		e.submit(signSend(s, sender, to, epoch, base+1, 0, e.salt, 20), false, "overtake.exec")
+	}
+	var behind *types.Transaction
+	run := base + 1
+	for len(here[run]) > 0 || run == base+1 {
+		run++
+	}
+	for n := range here {
+		if n > run && (behind == nil || n < behind.AccountNonce) {
+			behind = here[n][0]
+		}
+	}
+	if behind == nil {
+		e.salt++
+		gapTx := signSend(s, sender, to, epoch, run+uint32(rapid.IntRange(1, 2).Draw(t, "gap")), 0, e.salt, 20)
+		e.submit(gapTx, true, "overtake.gap")
+		if e.r.Pool.GetTx(gapTx.Hash()) == nil {
+			return // refused (limits, period): no shape
+		}
+		behind = gapTx
+	}
+	// the other node: its own transactions for every nonce below, then the shared one
+	fs := e.fr.ReadState()
+	there := poolNonces(e.fr, sender.Addr, epoch)
+	var feed []*types.Transaction
+	for n := base + 1; n < behind.AccountNonce; n++ {
+		if len(there[n]) == 0 {
+			e.salt++
+			feed = append(feed, signSend(fs, sender, to, epoch, n, 0, e.salt, 20))
+		}
+	}
+	feed = append(feed, cloneTx(behind))
+	accepted := 0
+	for _, tx := range feed {
+		if e.fr.Pool.AddExternalTxs(validation.InboundTx, tx) == nil {
+			accepted++
+		}
+	}
+	e.counts["foreign.overtake"]++
+	e.note("foreign pool overtakes %s: %d own txs for nonces %d..%d plus the shared %s (accepted %d of %d)", sender, len(feed)-1, base+1, behind.AccountNonce-1, txDesc(e.w, behind), accepted, len(feed))
+	if rapid.IntRange(0, 2).Draw(t, "mineNow") != 0 {
+		e.block(t, e.fr, false)
+	}
+}
+
 func (e *seqEnv) actStartSync(t *rapid.T) {
 	if e.syncing || rapid.IntRange(0, 2).Draw(t, "reallySync") != 0 {
 		return
@@ -432,6 +497,25 @@ func (e *seqEnv) block(t *rapid.T, by *sim.Replica, empty bool) {
 	}
 	before := poolContent(e.r.Pool)
 	preEpoch := e.r.ReadState().State.Epoch()
+	if who != "empty" && by != e.r && len(blk.Body.Transactions) > 0 {
+		// does the block carry a tx this pool holds behind (not in) the sender's ready run, while that run is non-empty?
+		l := e.r.Pool.BuildBlockTransactions()
+		ready := map[common.Address]bool{}
+		for _, tx := range l {
+			sender, _ := types.Sender(tx)
+			ready[sender] = true
+		}
+		for _, tx := range blk.Body.Transactions {
+			sender, _ := types.Sender(tx)
+			if ready[sender] && e.r.Pool.GetTx(tx.Hash()) != nil && !inList(l, tx.Hash()) {
+				e.counts["block.other_node.carries_tx_pending_here_behind_ready_ones"]++
+				if e.syncing {
+					e.counts["block.other_node.carries_tx_pending_here_behind_ready_ones.while_syncing"]++
+				}
+				break
+			}
+		}
+	}
 	for _, x := range e.w.Replicas {
 		if err := x.AddBlock(blk); err != nil {
 			t.Fatalf("harness: honest block %s by %s refused by %s: %v\n%s", sim.BlockDesc(blk), who, x.Name, err, e.ctx())
@@ -575,6 +659,18 @@ func (e *seqEnv) invariant(t *rapid.T) {
 		if stale := staleInPool(s, content); len(stale) > 0 {
 			t.Fatalf("period %s (pool prunes here): pool still holds transactions with a consumed nonce or a past epoch: %s\n%s", sim.PeriodName(s.State.ValidationPeriod()), txsDesc(w, stale), e.ctx())
 		}
+		// the same through the per-sender view (RPC, consensus engine): "remains" means in any view of the pool
+		for _, a := range w.Actors {
+			lst := pool.GetPendingByAddress(a.Addr)
+			if stale := staleInPool(s, lst); len(stale) > 0 {
+				t.Fatalf("period %s (pool prunes here): GetPendingByAddress(%s) still lists transactions with a consumed nonce or a past epoch: %s (GetTx finds the first: %v)\n%s", sim.PeriodName(s.State.ValidationPeriod()), a, txsDesc(w, stale), pool.GetTx(stale[0].Hash()) != nil, e.ctx())
+			}
+			for _, tx := range lst {
+				if pool.GetTx(tx.Hash()) == nil {
+					e.counts["views_disagree.listed_for_sender_but_unknown_by_hash"]++ // measured only
+				}
+			}
+		}
 		e.counts["stale_clause.checked"]++
 	} else {
 		e.counts["stale_clause.skipped"]++
@@ -647,6 +743,7 @@ func TestSequentialModel(t *testing.T) {
 			"block2":       e.actBlock,
 			"emptyBlock":   e.actEmptyBlock,
 			"foreignTx":    e.actForeignTx,
+			"overtake":     e.actForeignOvertake,
 			"foreignBlock": e.actForeignBlock,
 			"startSync":    e.actStartSync,
 			"stopSync":     e.actStopSync,
